@@ -418,7 +418,26 @@ def accumulated_state_is_write_only(ctx, rid):
     ALLOWED = ("contains_skip", "skip_children", "ignore_file", "format_generated_files", "is_generated_file", "span_to_file_contents",
                "attrs", "as_ref", "expect", "eq", "ne", "deref")
     unit = [sm] + [g for g in p.by_crate["rustfmt_nightly"] if g.id.startswith(sm.id + "::{closure")]
-    odd = [c for g in unit for c in g.calls() if c.name.rsplit("::", 1)[-1] not in ALLOWED
+    # a private helper that only should_skip_module (or such a helper) calls is part of the unit: its calls are audited instead
+    for _ in range(3):
+        ids = {g.id for g in unit}
+        grew = False
+        for g in list(unit):
+            for c in g.calls():
+                h = p.fns.get(c.name)
+                if h is None or h.id in ids or h.crate != "rustfmt_nightly" or "::formatting::" not in h.id or h.vis == "pub" \
+                        or c.name.rsplit("::", 1)[-1] in ALLOWED:
+                    continue
+                callers = {src for (src, kind, cc) in p.callers().get(h.id, [])}
+                if callers and all(x in ids or any(x.startswith(i + "::{closure") for i in ids) for x in callers):
+                    unit.append(h)
+                    unit += [k for k in p.by_crate["rustfmt_nightly"] if k.id.startswith(h.id + "::{closure")]
+                    ids.add(h.id)
+                    grew = True
+        if not grew:
+            break
+    unit_ids = {g.id for g in unit}
+    odd = [c for g in unit for c in g.calls() if c.name.rsplit("::", 1)[-1] not in ALLOWED and c.name not in unit_ids
            and (c.name.startswith("rustfmt_nightly::") or c.name.startswith("<rustfmt_nightly::") or (c.declared or "").startswith("rustfmt_nightly::"))]
     r.instance(rid, "should_skip_module consults only its five tests", "violation" if odd else "ok", "%s:%d" % (sm.file, sm.line),
                str(sorted({short(c.name) for c in odd}))[:120])
